@@ -343,3 +343,42 @@ func (s *S) stop() { s.waitForAll() }`)
 		t.Fatalf("calls to the renamed helper are not matched under its pinned name")
 	}
 }
+
+func TestInlineTailCallKeepsReturns(t *testing.T) {
+	res, _ := inlined(t, `package p
+type R struct{ n int }
+func (r *R) walk(xs []int, lim int) ([]int, error) {
+	var out []int
+	for _, x := range xs {
+		if x > lim {
+			return nil, errBig
+		}
+		out = append(out, x)
+	}
+	return out, nil
+}
+var errBig error
+func (r *R) root(xs []int) ([]int, error) {
+	if len(xs) == 0 {
+		return nil, nil
+	}
+	return r.walk(xs, r.n)
+}
+func root() {}`)
+	if res == nil {
+		t.Fatal("nothing inlined")
+	}
+	fn := FindFunc(res.Pkg, "R.root")
+	nilErr := 0
+	for _, b := range fn.Graph().Blocks {
+		if r := ReturnOf(b); r != nil && len(r.Results) == 2 && fn.Canon(r.Results[1]) == "nil" {
+			nilErr++
+		}
+	}
+	if nilErr != 2 {
+		t.Fatalf("expected the helper's `return out, nil` to stay a return of the enclosing function (2 nil-error returns), got %d", nilErr)
+	}
+	if FindFunc(res.Pkg, "R.walk") != nil {
+		t.Fatalf("a helper whose only use was inlined must be dropped from the variant")
+	}
+}
